@@ -705,7 +705,7 @@ Qed.
 Lemma g_list p b : gd mp (length b) (r_list p b).
 Proof.
   destruct p; unfold r_list.
-  - gb g_byte. eapply gd_bind; [apply gd_dee, g_i32|]. intros [? ?] ?. fin.
+  - gb g_byte. eapply gd_bind; [apply gd_dee, g_i32|]. intros [? ?] ?. destruct (_ <? 0); fin.
   - gb g_byte. destruct (negb (Z.shiftr a1 4 =? 15)); [fin|].
     eapply gd_bind; [apply gd_dee, g_uvarint|]. intros [? ?] ?. fin.
 Qed.
@@ -713,7 +713,7 @@ Lemma g_map p b : gd mp (length b) (r_map p b).
 Proof.
   destruct p; unfold r_map.
   - gb g_byte. eapply gd_bind; [apply gd_dee, g_byte|]. intros [? ?] ?.
-    eapply gd_bind; [apply gd_dee, g_i32|]. intros [? ?] ?. fin.
+    eapply gd_bind; [apply gd_dee, g_i32|]. intros [? ?] ?. destruct (_ <? 0); fin.
   - gb g_uvarint. destruct (a1 =? 0); [fin|].
     eapply gd_bind; [apply gd_dee, g_byte|]. intros [? ?] ?. fin.
 Qed.
